@@ -1,5 +1,6 @@
 //! C17: exact differential of every int8 GEMM kernel available on this host
-//! (`rten_gemm::verif::int8_gemm_executors`: generic, AVX2, AVX-512) against
+//! (`rten_gemm::verif::int8_gemm_executors`: generic, AVX2, AVX-512 [VNNI if the CPU has it], plus
+//! the AVX-512 kernel forced onto its non-VNNI path) against
 //! the Lean integer reference (`model_C17`).
 //!
 //! Request line (space separated `key=value`, lists are `,`-separated with
@@ -507,7 +508,12 @@ fn main() {
 fn run(args: &Args) {
     let mut out = Out::new(&args.out);
     let mut rng = Rng::new(args.seed);
-    let kernels = rten_gemm::verif::int8_gemm_executors();
+    let mut kernels = rten_gemm::verif::int8_gemm_executors();
+    // AVX-512 kernel forced onto its non-VNNI (vpmaddubsw, may_saturate) code path
+    #[cfg(target_arch = "x86_64")]
+    if let Some(k) = rten_gemm::verif::int8_gemm_executor_avx512_without_vnni() {
+        kernels.push(k);
+    }
     out.note(&format!(
         "int8 kernels on this host: {}",
         hcommon::join(kernels.iter().map(|(n, g)| format!("{n}(may_saturate={})", g.may_saturate())), ", ")
